@@ -772,4 +772,374 @@ theorem inv_createA1 {s s' : State} {id : Id} {v : ValsA} {code : Bytes} {pals :
                 · show UI _ s3.b s3.uLabel; rw [g4, g11]; exact hi.uLabel
 
 
+
+theorem bEx_insert_mono {s : State} {id : Id} {e : EntB} {s' : State} (hb : s'.b = s.b.insert id e) :
+    ∀ j, s.bEx j = true → s'.bEx j = true := by
+  intro j hj; simp only [State.bEx, hb, Map.lookup_insert]; split
+  · simp
+  · exact hj
+
+/-- the core invariant when only store B's entity table grows / is overwritten in place and
+    everything else of the core is untouched -/
+theorem core_of_b_insert {s s' : State} {id : Id} {e : EntB} (hi : InvCore s) (hid : id ≠ [])
+    (hb : s'.b = s.b.insert id e) (ha : s'.a = s.a) (hg : s'.g = s.g) (hp : s'.p = s.p) (hrc : s'.rc = s.rc)
+    (ht : s'.thg = s.thg) (h1 : s'.uName = s.uName) (h2 : s'.uAlias = s.uAlias) (h3 : s'.uCode = s.uCode)
+    (h4 : s'.sRoles = s.sRoles) (h5 : s'.hasA = s.hasA) (h6 : s'.hasB = true) : InvCore s' := by
+  have hae : s'.aEx = s.aEx := aEx_congr ha
+  have hce : s'.cEx = s.cEx := cEx_congr ha
+  have hmono := bEx_insert_mono hb
+  refine ⟨by rw [ha, h1]; exact hi.uName, by rw [ha, h2]; exact hi.uAlias, by rw [ha, h3]; exact hi.uCode,
+    by rw [ha, h4]; exact hi.sRoles, by rw [h4]; exact hi.nek, by rw [ha, ht]; exact hi.br, ?_, ?_, ?_,
+    by rw [hg, hae]; exact hi.g.mono (fun _ h => h) hmono, by rw [hp, hce]; exact hi.p.mono (fun _ h => h) hmono,
+    by rw [hrc, hae]; exact hi.rc.mono (fun _ h => h) hmono,
+    by rw [ha]; exact hi.namesNonEmpty, by rw [ha]; exact hi.rolesNonEmpty, by rw [ha]; exact hi.codeNonEmpty,
+    by rw [ha]; exact hi.idA, ?_, by rw [ha, h5]; exact hi.hasA, fun _ _ _ => h6⟩
+  · intro b l; rw [ht]; intro hl; exact hmono b (hi.thgDom b l hl)
+  · intro j e'; rw [ha]; intro hj hne; exact hmono _ (hi.ownerExists j e' hj hne)
+  · intro j e'; rw [ha]; intro hj hne; exact hmono _ (hi.depExists j e' hj hne)
+  · rw [hb]; simp only [Map.lookup_insert]
+    have : ¬ ([] : Id) = id := fun h => hid h.symm
+    simp [this, hi.idB]
+
+theorem inv_createB {s s' : State} {id : Id} {label : Option Bytes} (hi : Inv s) (h : createB s id label = .ok s') :
+    Inv s' := by
+  unfold createB at h
+  split at h
+  · cases h
+  · next hid =>
+    split at h
+    · cases h
+    · next hex =>
+      have hfresh : s.b.lookup id = none := by simpa using hex
+      simp only [bind, Except.bind, pure, Except.pure] at h
+      split at h
+      · cases h
+      · next ul hul =>
+        cases h
+        exact ⟨core_of_b_insert (e := ⟨label⟩) hi.toInvCore hid rfl rfl rfl rfl rfl rfl rfl rfl rfl rfl rfl rfl,
+          C03.uniqueAfter_create_ok (f := fun (e : EntB) => e.label.getD []) (e := ⟨label⟩) hi.uLabel hfresh hul⟩
+
+theorem inv_updateB {s s' : State} {id : Id} {label : Option Bytes} {chk : Option Bool} (hi : Inv s)
+    (h : updateB s id label chk = .ok s') : Inv s' := by
+  unfold updateB at h
+  split at h
+  · cases h
+  · next hid =>
+    split at h
+    · cases h
+    · next old hold =>
+      simp only [bind, Except.bind, pure, Except.pure] at h
+      split at h
+      · cases h
+      · next ul hul =>
+        cases h
+        exact ⟨core_of_b_insert hi.toInvCore hid rfl rfl rfl rfl rfl rfl rfl rfl rfl rfl rfl (hi.hasB id old hold),
+          C03.uniqueAfter_update_ok (f := fun (e : EntB) => e.label.getD []) hi.uLabel hold hul⟩
+
+theorem inv_rcOp {s s' : State} {f : RcPair → Except Err RcPair} (hi : Inv s)
+    (hf : ∀ r', f s.rc = .ok r' → RcInv r' s.aEx s.bEx) (h : rcOp s f = .ok s') : Inv s' := by
+  simp only [rcOp, bind, Except.bind, pure, Except.pure] at h
+  split at h
+  · cases h
+  · next r' hr =>
+    cases h
+    exact ⟨{ hi.toInvCore with rc := hf r' hr }, hi.uLabel⟩
+
+
+
+/-! ### deleting a thing -/
+
+theorem InvCore.idx {s : State} (hi : InvCore s) : IdxInv s.a s :=
+  ⟨hi.uName, hi.uAlias, hi.sRoles, hi.nek, hi.br, hi.thgDom⟩
+
+theorem LinkPair.cleanFwd_of_none {p : LinkPair} {bEx : Id → Bool} {id : Id} (h : p.fwd.lookup id = none) :
+    p.cleanFwd bEx id = p := by
+  simp [LinkPair.cleanFwd, h]
+
+/-- what `deleteA` computes, stage by stage -/
+theorem deleteA_stages {s s' : State} {id : Id} (hi : InvCore s) (h : deleteA s id = .ok s') :
+    id ≠ [] ∧ ∃ e s2, s.a.lookup id = some e ∧ IdxInv (s.a.erase id) s2 ∧
+      s2.hasA = s.hasA ∧ s2.hasB = s.hasB ∧ s2.a = s.a ∧ s2.b = s.b ∧ s2.g = s.g ∧ s2.rc = s.rc ∧
+      s2.uLabel = s.uLabel ∧ s2.uCode = uniqueBeforeDelete (e.code.getD []) s.uCode ∧
+      s2.p = s.p.cleanFwd s.bEx id ∧
+      s' = { s2 with a := s2.a.erase id,
+                     g := { fwd := (s2.g.cleanFwd s2.bEx id).fwd.erase id, bwd := (s2.g.cleanFwd s2.bEx id).bwd },
+                     p := { fwd := s2.p.fwd.erase id, bwd := s2.p.bwd },
+                     rc := { fwd := (s2.rc.cleanFwd s2.bEx id).fwd.erase id, bwd := (s2.rc.cleanFwd s2.bEx id).bwd } } := by
+  unfold deleteA at h
+  split at h
+  · cases h
+  · next hid =>
+    refine ⟨hid, ?_⟩
+    split at h
+    · cases h
+    · next e hold =>
+      simp only [bind, Except.bind, pure, Except.pure] at h
+      cases hc : e.code with
+      | none =>
+        simp only [hc, Option.isSome_none, Bool.false_eq_true, if_false] at h
+        split at h
+        · cases h
+        · next s2 hs2 =>
+          cases h
+          obtain ⟨i1, i2⟩ := beforeDeleteA_first hi.idx hold hs2
+          obtain ⟨f1, f2, f3, f4, f5, f6, f7, f8, f9⟩ := i2.fields
+          have hpn : s.p.fwd.lookup id = none := by
+            cases hl : s.p.fwd.lookup id with
+            | none => rfl
+            | some l => have := hi.p.fwdDom id l hl; simp [State.cEx, hold, hc] at this
+          exact ⟨e, s2, hold, i1, f1, f2, f3, f4, f5, f7, f9,
+            by rw [f8]; simp [uniqueBeforeDelete, hc], by rw [f6, LinkPair.cleanFwd_of_none hpn], rfl⟩
+      | some c =>
+        simp only [hc, Option.isSome_some, if_true] at h
+        split at h
+        · cases h
+        · next s1 hs1 =>
+          split at hs1
+          · cases hs1
+          · next t ht =>
+            cases hs1
+            split at h
+            · cases h
+            · next s2 hs2 =>
+              cases h
+              obtain ⟨i1, i2⟩ := beforeDeleteA_first hi.idx hold ht
+              obtain ⟨f1, f2, f3, f4, f5, f6, f7, f8, f9⟩ := i2.fields
+              have i1' : IdxInv (s.a.erase id)
+                  ({ t with uCode := uniqueBeforeDelete (evCode (some e)) t.uCode, p := t.p.cleanFwd t.bEx id } : State) :=
+                ⟨i1.uName, i1.uAlias, i1.sRoles, i1.nek, i1.br, i1.thgDom⟩
+              have hold1 : ({ t with uCode := uniqueBeforeDelete (evCode (some e)) t.uCode, p := t.p.cleanFwd t.bEx id } : State).a.lookup id = some e := by
+                show t.a.lookup id = some e; rw [f3]; exact hold
+              obtain ⟨j1, j2⟩ := beforeDeleteA_again i1' (by simp) hold1
+                (other_names_differ (f := fun (e : EntA) => e.name) hi.uName hold)
+                (other_names_differ (f := fun (e : EntA) => e.alias.getD []) hi.uAlias hold) hs2
+              obtain ⟨g1, g2, g3, g4, g5, g6, g7, g8, g9⟩ := j2.fields
+              simp only at g1 g2 g3 g4 g5 g6 g7 g8 g9
+              have hbe : t.bEx = s.bEx := bEx_congr f4
+              exact ⟨e, s2, hold, j1, by rw [g1, f1], by rw [g2, f2], by rw [g3, f3], by rw [g4, f4], by rw [g5, f5],
+                by rw [g7, f7], by rw [g9, f9], by rw [g8, f8]; simp [evCode, hc], by rw [g6, f6, hbe], rfl⟩
+
+theorem aEx_erase {s s' : State} {id : Id} (ha : s'.a = s.a.erase id) :
+    ∀ j, s.aEx j = true → j ≠ id → s'.aEx j = true := by
+  intro j hj hne; simp only [State.aEx, ha, Map.lookup_erase, hne, if_false]; exact hj
+
+theorem cEx_erase {s s' : State} {id : Id} (ha : s'.a = s.a.erase id) :
+    ∀ j, s.cEx j = true → j ≠ id → s'.cEx j = true := by
+  intro j hj hne; simp only [State.cEx, ha, Map.lookup_erase, hne, if_false]; exact hj
+
+theorem core_deleteA {s s' : State} {id : Id} (hi : InvCore s) (h : deleteA s id = .ok s') :
+    InvCore s' ∧ s'.a = s.a.erase id ∧ s'.b = s.b ∧ s'.uLabel = s.uLabel ∧ s'.hasB = s.hasB ∧ s'.hasA = s.hasA := by
+  obtain ⟨hid, e, s2, hold, ix, q1, q2, q3, q4, q5, q6, q7, q8, q9, rfl⟩ := deleteA_stages hi h
+  have hbe : s2.bEx = s.bEx := bEx_congr q4
+  refine ⟨⟨?_, ?_, ?_, ?_, ?_, ?_, ?_, ?_, ?_, ?_, ?_, ?_, ?_, ?_, ?_, ?_, ?_, ?_, ?_⟩, by simp [q3], q4, q7, q2, q1⟩
+  · show UI _ (s2.a.erase id) s2.uName; rw [q3]; exact ix.uName
+  · show UI _ (s2.a.erase id) s2.uAlias; rw [q3]; exact ix.uAlias
+  · show UI _ (s2.a.erase id) s2.uCode; rw [q3, q8]
+    exact C03.uniqueBeforeDelete_ok (f := fun (e : EntA) => e.code.getD []) hi.uCode hold
+  · show SI _ (s2.a.erase id) s2.sRoles; rw [q3]; exact ix.sRoles
+  · exact ix.nek
+  · show BR (s2.a.erase id) s2.thg; rw [q3]; exact ix.br
+  · intro b l; show s2.thg.lookup b = some l → _
+    intro hl; have := ix.thgDom b l hl; simpa [State.bEx] using this
+  · intro j e'; show (s2.a.erase id).lookup j = some e' → _ → (State.bEx _ _) = true
+    rw [q3]; simp only [Map.lookup_erase]; split
+    · simp
+    · intro hj hne; have := hi.ownerExists j e' hj hne; simpa [State.bEx, q4] using this
+  · intro j e'; show (s2.a.erase id).lookup j = some e' → _ → (State.bEx _ _) = true
+    rw [q3]; simp only [Map.lookup_erase]; split
+    · simp
+    · intro hj hne; have := hi.depExists j e' hj hne; simpa [State.bEx, q4] using this
+  · have := LinkPair.cleanFwd_drop_inv (aEx' := ({ s2 with a := s2.a.erase id } : State).aEx) (id := id) hi.g
+      (aEx_erase (by simp [q3]))
+    rw [q5, hbe]
+    exact this.mono (fun _ h => h) (fun j hj => by simpa [State.bEx, q4] using hj)
+  · have := LinkPair.cleanFwd_drop_inv (aEx' := ({ s2 with a := s2.a.erase id } : State).cEx) (id := id) hi.p
+      (cEx_erase (by simp [q3]))
+    rw [q9]
+    exact this.mono (fun _ h => h) (fun j hj => by simpa [State.bEx, q4] using hj)
+  · have := RcPair.cleanFwd_drop_inv (aEx' := ({ s2 with a := s2.a.erase id } : State).aEx) (id := id) hi.rc
+      (aEx_erase (by simp [q3]))
+    rw [q6, hbe]
+    exact this.mono (fun _ h => h) (fun j hj => by simpa [State.bEx, q4] using hj)
+  · intro j e'; show (s2.a.erase id).lookup j = some e' → _; rw [q3]; simp only [Map.lookup_erase]; split
+    · simp
+    · exact hi.namesNonEmpty j e'
+  · intro j e'; show (s2.a.erase id).lookup j = some e' → _; rw [q3]; simp only [Map.lookup_erase]; split
+    · simp
+    · exact hi.rolesNonEmpty j e'
+  · intro j e' c; show (s2.a.erase id).lookup j = some e' → _; rw [q3]; simp only [Map.lookup_erase]; split
+    · simp
+    · exact hi.codeNonEmpty j e' c
+  · show (s2.a.erase id).lookup [] = none; rw [q3]; simp only [Map.lookup_erase]; split <;> simp [hi.idA]
+  · show s2.b.lookup [] = none; rw [q4]; exact hi.idB
+  · intro j e'; show (s2.a.erase id).lookup j = some e' → s2.hasA = true; rw [q3, q1]
+    simp only [Map.lookup_erase]; split
+    · simp
+    · exact hi.hasA j e'
+  · intro j e'; show s2.b.lookup j = some e' → s2.hasB = true; rw [q4, q2]; exact hi.hasB j e'
+
+
+
+/-! ### deleting an owner (with its cascade) -/
+
+theorem core_congr_uLabel {s : State} (h : InvCore s) (x : Map Bytes Id) : InvCore { s with uLabel := x } :=
+  ⟨h.uName, h.uAlias, h.uCode, h.sRoles, h.nek, h.br, h.thgDom, h.ownerExists, h.depExists, h.g, h.p, h.rc,
+    h.namesNonEmpty, h.rolesNonEmpty, h.codeNonEmpty, h.idA, h.idB, h.hasA, h.hasB⟩
+
+theorem deleteAll_spec {ks : List Id} {s s' : State} (hi : InvCore s) (h : deleteAll ks s = .ok s') :
+    InvCore s' ∧ s'.b = s.b ∧ s'.uLabel = s.uLabel ∧ s'.hasB = s.hasB ∧
+    (∀ j e, s'.a.lookup j = some e → s.a.lookup j = some e) ∧ (∀ j, j ∈ ks → s'.a.lookup j = none) := by
+  induction ks generalizing s with
+  | nil => simp only [deleteAll] at h; cases h; exact ⟨hi, rfl, rfl, rfl, fun _ _ h => h, by simp⟩
+  | cons k rest ih =>
+    simp only [deleteAll] at h
+    cases hk : deleteA s k with
+    | error e => simp [hk] at h
+    | ok s1 =>
+      simp only [hk] at h
+      obtain ⟨c1, c2, c3, c4, c5, _⟩ := core_deleteA hi hk
+      obtain ⟨d1, d2, d3, d4, d5, d6⟩ := ih c1 h
+      have hsub : ∀ j e, s'.a.lookup j = some e → s.a.lookup j = some e := by
+        intro j e hj
+        have := d5 j e hj
+        rw [c2] at this
+        simp only [Map.lookup_erase] at this
+        split at this
+        · cases this
+        · exact this
+      refine ⟨d1, d2.trans c3, d3.trans c4, d4.trans c5, hsub, ?_⟩
+      intro j hj
+      simp only [List.mem_cons] at hj
+      rcases hj with rfl | hj
+      · cases hl : s'.a.lookup j with
+        | none => rfl
+        | some e =>
+          have := d5 j e hl
+          rw [c2] at this; simp at this
+      · exact d6 j hj
+
+theorem mem_dependants (s : State) (id j : Id) :
+    j ∈ dependants s id ↔ ∃ e, s.a.lookup j = some e ∧ e.dep.getD [] = id := by
+  simp only [dependants, C03.mem_setOf, List.mem_map, List.mem_filter, decide_eq_true_eq, Prod.exists, Map.mem_entries_iff]
+  constructor
+  · rintro ⟨a, e, ⟨hl, hd⟩, rfl⟩; exact ⟨e, hl, hd⟩
+  · rintro ⟨e, hl, hd⟩; exact ⟨j, e, ⟨hl, hd⟩, rfl⟩
+
+theorem deleteB_ok {s s' : State} {id : Id} (h : deleteB s id = .ok s') :
+    id ≠ [] ∧ ∃ e s1, s.b.lookup id = some e ∧ (s.thg.lookup id).getD [] = [] ∧
+      deleteAll (dependants s id) { s with uLabel := uniqueBeforeDelete (e.label.getD []) s.uLabel } = .ok s1 ∧
+      s' = { s1 with b := s1.b.erase id, thg := s1.thg.erase id,
+                     g := { fwd := (s1.g.cleanBwd s1.aEx id).fwd, bwd := (s1.g.cleanBwd s1.aEx id).bwd.erase id },
+                     p := { fwd := (s1.p.cleanBwd s1.cEx id).fwd, bwd := (s1.p.cleanBwd s1.cEx id).bwd.erase id },
+                     rc := { fwd := (s1.rc.cleanBwd s1.aEx id).fwd, bwd := (s1.rc.cleanBwd s1.aEx id).bwd.erase id } } := by
+  unfold deleteB at h
+  split at h
+  · cases h
+  · next hid =>
+    split at h
+    · cases h
+    · next e he =>
+      simp only at h
+      split at h
+      · cases h
+      · next hne =>
+        simp only [bind, Except.bind, pure, Except.pure] at h
+        split at h
+        · cases h
+        · next s1 hs1 =>
+          cases h
+          exact ⟨hid, e, s1, he, by simpa using hne, hs1, rfl⟩
+
+theorem bEx_erase {s s' : State} {id : Id} (hb : s'.b = s.b.erase id) :
+    ∀ j, s.bEx j = true → j ≠ id → s'.bEx j = true := by
+  intro j hj hne; simp only [State.bEx, hb, Map.lookup_erase, hne, if_false]; exact hj
+
+theorem inv_deleteB {s s' : State} {id : Id} (hi : Inv s) (h : deleteB s id = .ok s') : Inv s' := by
+  obtain ⟨hid, e, s1, hold, hempty, hcas, rfl⟩ := deleteB_ok h
+  obtain ⟨c, cb, cl, chb, csub, cgone⟩ := deleteAll_spec (core_congr_uLabel hi.toInvCore _) hcas
+  simp only at cb cl chb csub
+  -- no survivor refers to the owner any more
+  have hnoref : ∀ j e', s1.a.lookup j = some e' → e'.owner.getD [] ≠ id := by
+    intro j e' hj heq
+    have := (hi.br id j).2 ⟨hid, e', csub j e' hj, heq⟩
+    rw [hempty] at this; simp at this
+  have hnodep : ∀ j e', s1.a.lookup j = some e' → e'.dep.getD [] ≠ id := by
+    intro j e' hj heq
+    have hm := (mem_dependants s id j).2 ⟨e', csub j e' hj, heq⟩
+    have := cgone j hm
+    rw [hj] at this; cases this
+  have hbmono := bEx_erase (s := s1) (s' := { s1 with b := s1.b.erase id }) (id := id) rfl
+  refine ⟨⟨c.uName, c.uAlias, c.uCode, c.sRoles, c.nek, ?_, ?_, ?_, ?_, ?_, ?_, ?_, c.namesNonEmpty, c.rolesNonEmpty,
+    c.codeNonEmpty, c.idA, ?_, c.hasA, ?_⟩, ?_⟩
+  · intro b j
+    have := c.br b j
+    show j ∈ ((s1.thg.erase id).lookup b).getD [] ↔ _
+    simp only [Map.lookup_erase]
+    by_cases hb : b = id
+    · subst hb; simp only [if_true, Option.getD_none, List.not_mem_nil, false_iff]
+      rintro ⟨_, e', hj, heq⟩; exact hnoref j e' hj heq
+    · simp only [hb, if_false]; exact this
+  · intro b l
+    show (s1.thg.erase id).lookup b = some l → _
+    simp only [Map.lookup_erase]; split
+    · simp
+    · intro hl; exact c.thgDom b l hl
+  · intro j e' hj hne
+    exact hbmono _ (c.ownerExists j e' hj hne) (hnoref j e' hj)
+  · intro j e' hj hne
+    exact hbmono _ (c.depExists j e' hj hne) (hnodep j e' hj)
+  · exact LinkPair.cleanBwd_drop_inv c.g hbmono
+  · exact LinkPair.cleanBwd_drop_inv c.p hbmono
+  · exact RcPair.cleanBwd_drop_inv c.rc hbmono
+  · show (s1.b.erase id).lookup [] = none; simp only [Map.lookup_erase]; split <;> simp [c.idB]
+  · intro j e'; show (s1.b.erase id).lookup j = some e' → s1.hasB = true
+    simp only [Map.lookup_erase]; split
+    · simp
+    · exact c.hasB j e'
+  · show UI _ (s1.b.erase id) s1.uLabel
+    rw [cb, cl]
+    exact C03.uniqueBeforeDelete_ok (f := fun (e : EntB) => e.label.getD []) hi.uLabel hold
+
+theorem inv_deleteA {s s' : State} {id : Id} (hi : Inv s) (h : deleteA s id = .ok s') : Inv s' := by
+  obtain ⟨c1, _, c3, c4, _, _⟩ := core_deleteA hi.toInvCore h
+  exact ⟨c1, by rw [c3, c4]; exact hi.uLabel⟩
+
+/-! ### all operations, transactions, histories -/
+
+theorem inv_stepRaw {s s' : State} {op : Op} (hi : Inv s) (h : stepRaw s op = .ok s') : Inv s' := by
+  cases op with
+  | createA id v => exact inv_createA hi h
+  | updateA id v chk => exact inv_updateA hi h
+  | deleteA id => exact inv_deleteA hi h
+  | createA1 id v code pals => exact inv_createA1 hi h
+  | createB id l => exact inv_createB hi h
+  | updateB id l chk => exact inv_updateB hi h
+  | deleteB id => exact inv_deleteB hi h
+  | rcInc a b => exact inv_rcOp (f := fun r => r.inc s.aEx s.bEx a b) hi (fun _ hr => RcPair.inc_pres hi.rc hr) h
+  | rcDec a b => exact inv_rcOp (f := fun r => r.dec s.aEx s.bEx a b) hi (fun _ hr => RcPair.dec_pres hi.rc hr) h
+  | rcSet a b n => exact inv_rcOp (f := fun r => r.set s.aEx s.bEx a b n) hi (fun _ hr => RcPair.set_pres hi.rc hr) h
+
+theorem inv_applyOps {s s' : State} {ops : List Op} {i : Nat} (hi : Inv s)
+    (h : applyOps s ops i = .ok s') : Inv s' := by
+  induction ops generalizing s i with
+  | nil => simp only [applyOps] at h; cases h; exact hi
+  | cons op rest ih =>
+    simp only [applyOps] at h
+    split at h
+    · next s1 h1 => exact ih (inv_stepRaw hi h1) h
+    · cases h
+
+theorem inv_txStep {s : State} (ops : List Op) (hi : Inv s) : Inv (txStep s ops).1 := by
+  unfold txStep
+  split
+  · next s' h => exact inv_applyOps hi h
+  · exact hi
+
+theorem inv_foldTxs {s : State} (txs : List (List Op)) (hi : Inv s) :
+    Inv (txs.foldl (fun s ops => (txStep s ops).1) s) := by
+  induction txs generalizing s with
+  | nil => exact hi
+  | cons ops rest ih => exact ih (inv_txStep ops hi)
+
+
 end StorageModel.C06
